@@ -1,13 +1,13 @@
 #!/bin/bash
 # tools/wave_intake.sh <wave-letter> <lane> <ID>... : take the deliveries of a sub-agent wave from
-# /tmp/mut3/<ID>/MUTATION/<n>, archive them under seeded_incoming/<ID><letter>/<n>, confirm each in a scratch
+# ${MUTDIR:-/tmp/mut3}/<ID>/MUTATION/<n>, archive them under seeded_incoming/<ID><letter>/<n>, confirm each in a scratch
 # worktree (tools/verify_mutation.sh), keep confirmed ones as seeded/<ID><letter>-<n>/, remove the
 # sub-agent's worktree, and run the property's quick check against each kept change in the given lane.
 w="$1"; lane="$2"; shift; shift
 for id in "$@"; do
-  src=/tmp/mut3/$id/MUTATION
+  src=${MUTDIR:-/tmp/mut3}/$id/MUTATION
   [ -d "$src" ] || { echo "$id: no deliveries"; continue; }
-  git -C /repo worktree remove --force /tmp/mut3/$id/wt >/dev/null 2>&1; rm -rf /tmp/mut3/$id/wt
+  git -C /repo worktree remove --force ${MUTDIR:-/tmp/mut3}/$id/wt >/dev/null 2>&1; rm -rf ${MUTDIR:-/tmp/mut3}/$id/wt
   for d in $src/[0-9]*; do
     n=$(basename $d); name="$id$w-$n"
     [ -f $d/patch.diff ] && [ -f $d/demo.diff ] || { echo "$name: incomplete delivery"; continue; }
